@@ -609,7 +609,16 @@ fn shake_0(expression: Expression) -> Expression {
             }
         }
         Expression::Match(m, expression) => {
-            let expression = shake_0(*expression);
+            // NOTE: all() / of() count the members of the group they hold, so the group itself must
+            // stay (a group of one would otherwise be replaced by its member, and an automaton there
+            // is counted per needle)
+            let expression = match *expression {
+                Expression::BooleanGroup(symbol, expressions) => Expression::BooleanGroup(
+                    symbol,
+                    expressions.into_iter().map(shake_0).collect(),
+                ),
+                expression => shake_0(expression),
+            };
             Expression::Match(m, Box::new(expression))
         }
         Expression::Negate(expression) => {
